@@ -199,7 +199,9 @@ package server
 //@   requires path != nil ==> path.GetSource() != nil
 //@   requires old != nil ==> old.GetSource() != nil
 //@   claims at-return
-//@   at-return requires ret0 != nil && !ret0.IsWithdraw && peer.isIBGPPeer() && !ret0.IsLocal() ==> ret0.GetSource().AS != peer.AS() || ret0.GetSource().RouteReflectorClient || peer.isRouteReflectorClient()
+// (whether the route was learned over iBGP is a matter of the session it came in on - its peer AS against that
+// session's local AS -, not of the AS of the peer it is offered to: the two differ when local-as is in use)
+//@   at-return requires ret0 != nil && !ret0.IsWithdraw && peer.isIBGPPeer() && !ret0.IsLocal() ==> ret0.GetSource().AS != ret0.GetSource().LocalAS || ret0.GetSource().RouteReflectorClient || peer.isRouteReflectorClient()
 // (route-server clients included: the per-client best-path filter does the same for them on the ordinary path, but
 // secondary routes and add-path candidates reach filterpath unfiltered)
 //@   at-return requires ret0 != nil && !ret0.IsWithdraw && isASLoop(peer, ret0) ==> ret0.IsLocal() && peer.allowAsPathLoopLocal()
